@@ -269,10 +269,11 @@ impl<F: Fn(pipe::SimplexDirection, usize) + Send + Sync> DuplexPipe<F> {
 
         for (meta, id) in expired {
             connections.remove(&meta);
+            // the forwarder is told about a closed connection in the peer-to-client orientation
             self.right_pipe
                 .shared
                 .forwarder_shared
-                .on_connection_closed(&meta);
+                .on_connection_closed(&meta.reversed());
             log_id!(debug, id, "Connection expired: {:?}", meta);
         }
     }
